@@ -2,6 +2,8 @@ import EaselModel.Core.Proto
 import EaselModel.Containers.Keyhash
 import EaselModel.Containers.Heap
 import EaselModel.Containers.RedBlack
+import EaselModel.Containers.RedBlackPtr
+import EaselModel.Containers.KeyhashApi
 import EaselModel.Containers.Stack
 import EaselModel.Containers.Quicksort
 /-! Line-protocol driver for the C19 models (keyhash, heap, red-black tree, stacks, quicksort). -/
@@ -15,6 +17,12 @@ structure S where
   stack : Stack.Stack Int := Stack.create
   stype : String := "i"
   cond : Bool := false         -- the stack has an active condition variable: Pop on an empty stack would wait (bad-op)
+  rp : RedBlackPtr.Store := #[]                 -- pointer-level red-black model: the record store
+  rpRoot : Option Nat := none
+  rpFree : Option Nat := none                   -- head of the pool's free list
+  rpPool : Nat := 0                             -- 0: one esl_red_black_doublekey_Create() per record; n: pool blocks of n
+  rpIn : Array Bool := #[]                      -- record id is linked into the tree
+  rpList : Option (Option Nat × Option Nat) := none   -- after convert_to_sorted_linked: (head, tail)
   dead : Bool := false         -- a fault was reported: every later op of the case answers `fault` too
 
 def fnv (h : UInt64) (x : UInt64) : UInt64 := (h ^^^ x) * (0x100000001b3 : UInt64)
@@ -76,6 +84,62 @@ def qcmp (mode : String) (data : Array Int) (a b : Nat) : Int :=
   if mode == "desc" then (if x > y then -1 else if x < y then 1 else 0)
   else (if x < y then -1 else if x > y then 1 else 0)
 
+
+def showPtr (p : Option Nat) : String := match p with | none => "-" | some i => toString i
+def ptrCode (p : Option Nat) : UInt64 := match p with | none => 0 | some i => UInt64.ofNat (i + 1)
+
+def rpIds (s : S) : List Nat := (List.range s.rpIn.size).filter fun i => s.rpIn.getD i false
+
+def rpShowNodes (s : S) : String :=
+  String.join ((rpIds s).map fun i =>
+    match RedBlackPtr.rd s.rp i with
+    | none => s!" {i}:?"
+    | some nd => s!" {i}:{nd.key}:{if nd.color == .red then "R" else "B"}:{showPtr nd.parent}:{showPtr nd.small}:{showPtr nd.large}")
+
+def rpHashNodes (s : S) : UInt64 :=
+  (rpIds s).foldl (fun h i =>
+    match RedBlackPtr.rd s.rp i with
+    | none => fnv h 0xdead
+    | some nd =>
+      let h := fnv h (UInt64.ofNat i)
+      let h := fnv h (UInt64.ofInt nd.key)
+      let h := fnv h (if nd.color == .red then 1 else 2)
+      let h := fnv h (ptrCode nd.parent)
+      let h := fnv h (ptrCode nd.small)
+      fnv h (ptrCode nd.large)) fnv0
+
+/-- take a record: a fresh `Create()`, or the head of the pool's free list (a new block when it is empty) -/
+def rpTake (s : S) : Option (S × Nat) :=
+  if s.rpPool = 0 then
+    let (st, n) := RedBlackPtr.create s.rp
+    some ({ s with rp := st, rpIn := s.rpIn.push false }, n)
+  else
+    let (st, free) := match s.rpFree with
+      | some f => (s.rp, some f)
+      | none => RedBlackPtr.poolCreate s.rp s.rpPool
+    match RedBlackPtr.poolTake st free with
+    | none => none
+    | some (n, free') => some ({ s with rp := st, rpFree := free', rpIn := s.rpIn ++ Array.replicate (st.size - s.rpIn.size) false }, n)
+
+def rpInsertAll (s : S) : List Int → List String → Option (S × List String)
+  | [], acc => some (s, acc.reverse)
+  | k :: rest, acc =>
+    match rpTake s with
+    | none => none
+    | some (s, n) =>
+      match RedBlackPtr.wr s.rp n (fun nd => { nd with key := k }) with
+      | none => none
+      | some st =>
+        match RedBlackPtr.insert st s.rpRoot n with
+        | none => none
+        | some (st, some r) => rpInsertAll { s with rp := st, rpRoot := some r, rpIn := s.rpIn.setIfInBounds n true } rest (s!"i{n}" :: acc)
+        | some (st, none) =>
+          if s.rpPool = 0 then rpInsertAll { s with rp := st } rest (s!"d{n}" :: acc)
+          else
+            match RedBlackPtr.poolGive st s.rpFree n with
+            | none => none
+            | some (st, free) => rpInsertAll { s with rp := st, rpFree := free } rest (s!"d{n}" :: acc)
+
 def fault (s : S) : S × String := ({ s with dead := true }, "fault")
 
 def step (s : S) (line : String) : S × String :=
@@ -92,16 +156,14 @@ def step (s : S) (line : String) : S × String :=
   | "store" :: _ =>
     match argHex? ws "key" with
     | some k =>
-      let k := if (argNat? ws "str").getD 0 == 1 then asCStr k else k
-      match Keyhash.store H s.kh k with
+      match (if (argNat? ws "str").getD 0 == 1 then Keyhash.storeStrC Keyhash.jenkinsStr H s.kh k else Keyhash.store H s.kh k) with
       | some (kh, st, idx) => ({ s with kh := kh }, (if st == .edup then "edup " else "ok ") ++ toString idx)
       | none => fault s
     | none => (s, "bad-op")
   | "lookup" :: _ =>
     match argHex? ws "key" with
     | some k =>
-      let k := if (argNat? ws "str").getD 0 == 1 then asCStr k else k
-      match Keyhash.lookup H s.kh k with
+      match (if (argNat? ws "str").getD 0 == 1 then Keyhash.lookupStrC Keyhash.jenkinsStr s.kh k else Keyhash.lookup H s.kh k) with
       | some (st, idx) => (s, if st == .ok then s!"ok {idx}" else "enotfound -1")
       | none => fault s
     | none => (s, "bad-op")
@@ -126,6 +188,10 @@ def step (s : S) (line : String) : S × String :=
     match argHex? ws "key", argNat? ws "size" with
     | some k, some sz => (s, s!"ok jh={Keyhash.jenkins k sz} js={Keyhash.jenkins (asCStr k) sz}")
     | _, _ => (s, "bad-op")
+  | "kh_dump" :: _ =>
+    match Keyhash.dump s.kh with
+    | some d => (s, s!"ok nkeys={d.nkeys} sn={d.sn} hashsize={d.hashsize} nempty={d.nempty} max={d.maxkeys} min={d.minkeys} kalloc={d.kalloc} salloc={d.salloc} size={Keyhash.sizeofArrays s.kh}")
+    | none => fault s
   | "kh_sizes" :: _ => (s, s!"ok hashsize={s.kh.hashsize} kalloc={s.kh.kalloc} salloc={s.kh.salloc} sn={s.kh.smem.size}")
   -- ---------------- heap
   | "heap_new" :: _ => ({ s with heap := Heap.create ((argNat? ws "max").getD 0 == 1) }, "ok")
@@ -179,6 +245,46 @@ def step (s : S) (line : String) : S × String :=
     | t =>
       let desc := RedBlack.Tree.toLinkedDesc t []
       ({ s with tree := .nil }, "ok desc=" ++ showInts desc ++ " asc=" ++ showInts desc.reverse)
+  -- ---------------- red-black tree, pointer-level model
+  | "rp_new" :: _ =>
+    ({ s with rp := #[], rpRoot := none, rpFree := none, rpPool := (argNat? ws "pool").getD 0, rpIn := #[], rpList := none }, "ok")
+  | "rp_ins" :: _ =>
+    if s.rpList.isSome then (s, "bad-op") else
+    match rpInsertAll s (parseInts ((arg? ws "k").getD "-")) [] with
+    | some (s, flags) => (s, "ok " ++ (if flags.isEmpty then "-" else ",".intercalate flags) ++ " root=" ++ showPtr s.rpRoot)
+    | none => fault s
+  | "rp_nodes" :: _ => (s, s!"ok root={showPtr s.rpRoot} n={(rpIds s).length}" ++ rpShowNodes s)
+  | "rp_hash" :: _ => (s, s!"ok root={showPtr s.rpRoot} n={(rpIds s).length} h={hex64 (rpHashNodes s)}")
+  | "rp_lookup" :: _ =>
+    if s.rpList.isSome then (s, "bad-op") else
+    let ks := parseInts ((arg? ws "k").getD "-")
+    let rs := ks.map fun k => RedBlackPtr.lookup s.rp k (s.rp.size + 1) s.rpRoot
+    if rs.any Option.isNone then fault s
+    else (s, "ok " ++ (if rs.isEmpty then "-" else ",".intercalate (rs.map fun r => showPtr (r.getD none))))
+  | "rp_pool" :: _ =>
+    (s, "ok free=" ++ showInts ((RedBlackPtr.follow s.rp (·.large) (s.rp.size + 1) s.rpFree).map Int.ofNat))
+  | "rp_convert" :: _ =>
+    if s.rpList.isSome then (s, "bad-op") else
+    match RedBlackPtr.convert s.rp s.rpRoot with
+    | none => fault s
+    | some none => (s, "fail")
+    | some (some (st, head, tail)) =>
+      ({ s with rp := st, rpRoot := none, rpList := some (head, tail) }, s!"ok head={showPtr head} tail={showPtr tail}")
+  | "rp_ltest" :: _ =>
+    match s.rpList with
+    | none => (s, "bad-op")
+    | some (head, tail) =>
+      match RedBlackPtr.linkedListTest s.rp head tail with
+      | some .ok => (s, "ok")
+      | some .fail => (s, "fail")
+      | _ => fault s
+  | "rp_walk" :: _ =>
+    match s.rpList with
+    | none => (s, "bad-op")
+    | some (head, tail) =>
+      let d := RedBlackPtr.follow s.rp (·.small) (s.rp.size + 1) head
+      let a := RedBlackPtr.follow s.rp (·.large) (s.rp.size + 1) tail
+      (s, "ok desc=" ++ showInts (d.map Int.ofNat) ++ " asc=" ++ showInts (a.map Int.ofNat))
   -- ---------------- stacks
   | "st_new" :: _ =>
     -- `mutex=1` / `cond=1` (esl_stack_UseMutex / UseCond) do not change the sequential behaviour
